@@ -4,6 +4,7 @@ CONSTANTS
   MaxEvents = 3
   MaxPerBlock = 2
   MaxReorgs = 1
+  MaxRestarts = 1
   MaxFail = 1
   ChunkSizes = {1, 2, 10}
   FinalityAfterNotices = FALSE
